@@ -291,10 +291,11 @@ pub fn run(ctx: Arc<Ctx>) {
 		}
 		// directory with extra files next to the tiles
 		if small || i % 7 == 0 {
-			for extra in [false, true] {
+			for (extra, mixed) in [(false, false), (true, false), (false, true)] {
 				let root = wpath.join(format!("d{i}.dir"));
 				let _ = std::fs::remove_dir_all(&root);
-				let mut files: Vec<(String, Vec<u8>)> = tiles.iter().map(|(k, v)| (format!("{}/{}/{}.png", k.0, k.1, k.2), v.clone())).collect();
+				// mixed: both spellings of the JPEG extension in one tree (tiles collected from two exports)
+				let mut files: Vec<(String, Vec<u8>)> = tiles.iter().enumerate().map(|(n, (k, v))| (format!("{}/{}/{}.{}", k.0, k.1, k.2, if !mixed { "png" } else if n % 2 == 0 { "jpg" } else { "jpeg" }), v.clone())).collect();
 				files.push(("tiles.json".into(), META.to_vec()));
 				if extra {
 					files.push((".DS_Store".into(), vec![0, 1]));
@@ -307,7 +308,7 @@ pub fn run(ctx: Arc<Ctx>) {
 				}
 				codec::dir_write(&root, &files).unwrap();
 				let w = Written::Path(root);
-				check_opened(ctxr, &rt, Cont::Directory, &format!("directory extra_files={extra} over {name}"), &w, &tiles, true, json!({"cont": "directory", "extra": extra, "set": name}));
+				check_opened(ctxr, &rt, Cont::Directory, &format!("directory extra_files={extra} mixed_jpg_jpeg={mixed} over {name}"), &w, &tiles, true, json!({"cont": "directory", "extra": extra, "mixed": mixed, "set": name}));
 				ct::cleanup(&w);
 			}
 			// the same tree with path components that are symbolic links (a tile tree is addressed by path): tiles with a
